@@ -76,6 +76,7 @@ type Frame struct {
 	ghostCells  map[string]*Cell
 	callOrds    map[*ast.CallExpr]int
 	snapshots   map[string]*State // named ghost snapshots (at call N snapshot S)
+	curGroup    string            // proof group of the obligation being generated
 	assertHit   map[int]bool      // call ordinals whose `at call N assert` clauses were generated
 	loopEntries map[int]*State    // state at first entry of loop N (for entry(N, e) in invariants)
 }
